@@ -118,9 +118,9 @@ func (s *Sym) MakeFn(name string, args ...*RF) *RF {
 			return s.MakeFn("ite", c.Args[0], args[2], args[1])
 		}
 	case "not":
-		if at := args[0].SingleAtom(); at != nil && at.Name == "not" {
-			return at.Args[0]
-		}
+		return s.Not(args[0])
+	case "land", "lor":
+		return s.nary(name, args)
 	case "cmp==", "cmp!=":
 		// commutative: canonical argument order (by rendering)
 		if len(args) == 2 && args[0].String() > args[1].String() {
